@@ -15,6 +15,7 @@ func init() {
 		Assumptions: []string{"interval-set model validated by selfcheck", "Minimum/Maximum on an empty bitmap are out of domain"},
 		Units: []Unit{
 			{Name: "queries", Quick: 24000, Thorough: 800000, Run: c03Queries},
+			{Name: "universe-scale", Quick: 12, Thorough: 300, Run: c03Universe},
 			{Name: "every-chunk-count", ExhaustiveN: func(t string) int { return len(chunkCounts(t)) }, RunIndexed: c03EveryCount},
 			{Name: "exhaustive-subsets", ExhaustiveN: func(string) int { return 256 * 3 }, RunIndexed: c03Exh},
 		},
